@@ -194,7 +194,7 @@ def run(m, rep, tier):
     n5 = rep.rule('N5', 'count adjusted exactly once per primitive; concat adds once and re-initialises the source', floor=3)
     adj = []
     for f in fns:
-        if listrules.count_once(m, f, n5, SL, 'count'):
+        if listrules.count_once(m, f, n5, SL, 'count', node=NODE, links=('n',)):
             adj.append(f)
     plus = [f for f in adj if any(s.op == 'store' and unit_step(f, s.o[0])[1] == 1 and resolve_addr(f, s.o[1]).fsteps[-1:] == ((SL, 'count'),) for s in f.all_insts())]
     minus = [f for f in adj if any(s.op == 'store' and unit_step(f, s.o[0])[1] == -1 and resolve_addr(f, s.o[1]).fsteps[-1:] == ((SL, 'count'),) for s in f.all_insts())]
